@@ -151,7 +151,7 @@ func c15Bounds(c *Ctx) {
 	reach := c.reachableFromPeerInput()
 	c.R.Note("compiler reports %d unproven bounds checks in the three packages; %d functions are reachable from the decoding entry points", len(sites), len(reach))
 	seen := map[string]bool{}
-	inReach, outReach, byFold, byBounded := 0, 0, 0, 0
+	inReach, outReach, byFold, byBounded, byAuto := 0, 0, 0, 0, 0
 	for _, s := range sites {
 		if !reach[s.Func] {
 			outReach++
@@ -201,12 +201,15 @@ func c15Bounds(c *Ctx) {
 		} else if why, ok := c.decidedByBoundedFold(s); ok {
 			c.R.OK(rule, rule+"/"+k, pos, why)
 			byBounded++
+		} else if why, ok := c.autoFoldDecides(s); ok {
+			c.R.OK(rule, rule+"/"+k, pos, why)
+			byAuto++
 		} else {
 			c.R.Fail(rule, rule+"/"+k, pos, "index/slice expression `"+s.Expr+"` in "+s.Func+" is reachable from peer input, is not proven in range by the compiler, is not in the reviewed table and is not decided by a fold of its function")
 		}
 	}
 	c.R.Sites += len(sites)
-	c.R.Sample(map[string]any{"rule": rule, "compiler_unproven_sites": len(sites), "in_peer_reachable_functions": inReach, "outside": outReach, "decided_by_total_fold": byFold, "decided_by_bounded_fold": byBounded})
+	c.R.Sample(map[string]any{"rule": rule, "compiler_unproven_sites": len(sites), "in_peer_reachable_functions": inReach, "outside": outReach, "decided_by_total_fold": byFold, "decided_by_bounded_fold": byBounded, "decided_by_unconstrained_fold": byAuto})
 }
 
 // reviewedPanics: function -> why its explicit panic cannot be triggered by peer input.
